@@ -339,15 +339,22 @@ def evidence (st : St) : Evidence := ⟨st.evEph, st.evShares⟩
 def accusations (msgs : List (Nat × List (Nat × Nat))) : List (Nat × Nat × Nat) :=
   (dedup (·.1) msgs).flatMap (fun (accuser, ks) => ks.map (fun (accused, key) => (accuser, accused, key)))
 
+/-- the phase 4 accusation messages of a member's inbox as (sender, accused ↦ key) -/
+def acc4Msgs (st : St) : List (Nat × List (Nat × Nat)) :=
+  st.prev.filterMap (fun m => match m with | .acc4 h x => some (h.sender, x) | _ => none)
+
+/-- `ResolveSecretSharesAccusationsMessages`, one accusation -/
+def resolve5Step (s : St) (a : Nat × Nat × Nat) : St :=
+  if s.status ≠ .ok then s else
+  match verdict5 (evidence s) s.q s.id s.n ((lookup a.2.1 s.recvC).getD []) a.1 a.2.1 a.2.2 with
+  | .fatal => if s.fixAbort then discardShares (markDQ s a.1) a.1 else { s with status := .errNoPubKey }
+  | .accuser => discardShares (markDQ s a.1) a.1
+  | _ => discardShares (markDQ s a.2.1) a.2.1
+
 def phase5 (st : St) : St :=
-  let msgs := st.prev.filterMap (fun m => match m with | .acc4 h x => some (h.sender, x) | _ => none)
+  let msgs := acc4Msgs st
   let st := if st.fixOrder then st else markInactive st (msgs.map (·.1))
-  let st := (accusations msgs).foldl (fun s (accuser, accused, key) =>
-    if s.status ≠ .ok then s else
-    match verdict5 (evidence s) s.q s.id s.n ((lookup accused s.recvC).getD []) accuser accused key with
-    | .fatal => if s.fixAbort then discardShares (markDQ s accuser) accuser else { s with status := .errNoPubKey }
-    | .accuser => discardShares (markDQ s accuser) accuser
-    | _ => discardShares (markDQ s accused) accused) st
+  let st := (accusations msgs).foldl resolve5Step st
   if st.fixOrder && st.status = .ok then markInactive st (msgs.map (·.1)) else st
 
 /-- points of the accused a phase-9 accusation is judged against -/
